@@ -9,6 +9,7 @@ import ConduitModel.Driver.Egress
 import ConduitModel.Driver.ErrPaths
 import ConduitModel.Driver.AckErr
 import ConduitModel.Driver.ProcSvc
+import ConduitModel.Driver.TreeBuild
 import ConduitModel.Driver.Registry
 import ConduitModel.Driver.Codec
 import ConduitModel.Driver.Lifecycle
@@ -63,6 +64,8 @@ def component (name : String) : Option (String → String) :=
   | "condmerge" => some StreamD.condMergeLine
   | "pipe" => some StreamD.pipeLine
   | "workerstop" => some WorkerStopD.workerstopLine
+  | "treeshape" => some TreeBuildD.treeshapeLine
+  | "appendtoend" => some TreeBuildD.appendtoendLine
   | _ => none
 
 partial def loop (h : IO.FS.Stream) (out : IO.FS.Stream) (f : String → String) : IO Unit := do
